@@ -8,12 +8,14 @@
    (RunnerInv); postponed commands queue up in order, are replayed front to back as soon as the target's run — with
    everything it queued — has completed and before control returns to whatever was queued after that run, and what the
    replayed runs postpone themselves goes in front of the commands kept for other targets.
-   Partial: removal / despawn reactions are scheduled by polls, whose placement (before and after every system command)
-   is structural in Machine.exec and compared, not restated; "the order of the EvRun lines equals the depth-first order
+   Removal / despawn reactions are scheduled by polls; that they run at a system-command boundary of the same tree and no
+   later than its end is proved (QuietSpec): whenever the runner returns — run, abort or postponement — no removal record
+   is unread and the despawn channel is empty, and a poll applies what it schedules in-line.
+   Partial: "the order of the EvRun lines equals the depth-first order
    of the command tree" as a single statement over whole programs is not formulated — it is what the correspondence
    compares (order projection: every mark, run and end line) on the recursion profile. *)
 From Cobweb Require Import Machine.
-From CobwebProofs Require Import Closed RunnerInv LogSpec OrderSpec TopLevel.
+From CobwebProofs Require Import Closed RunnerInv LogSpec OrderSpec PollSpec QuietSpec TopLevel.
 
 Theorem log_is_append_only : forall (P : program) (fuel : nat) (i : instr) (w w' : world),
   exec P fuel i w = Ok w' -> exists l, log w' = log w ++ l.
@@ -54,6 +56,10 @@ Proof. exact replay_keeps_the_others_in_order. Qed.
 Theorem nothing_left_postponed : forall (P : program) (fuel : nat) (w' : world), run P fuel = Ok w' -> quiescent w'.
 Proof. exact run_quiescent_full. Qed.
 
+(* removal and despawn reactions run no later than the end of the tree: when the runner returns nothing is left unread *)
+Theorem polled_reactions_run_by_the_end_of_the_tree : forall (P : program) f t su cl w w', RSeq w -> exec P f (IRunner t su cl) w = Ok w' -> Quiet w'.
+Proof. exact tree_ends_polled. Qed.
+
 (* non-vacuity: 101 queues [mark-like broadcast to 102; run 101 (itself: postponed); run 103]: 102 reacts in-line, then 103
    runs in-line, and the postponed re-run of 101 happens after 101's own run completed *)
 Definition ex_prog : program :=
@@ -78,3 +84,4 @@ Print Assumptions replay_front_to_back.
 Print Assumptions replayed_runs_own_postponed_commands_come_first.
 Print Assumptions commands_for_other_targets_keep_their_order.
 Print Assumptions nothing_left_postponed.
+Print Assumptions polled_reactions_run_by_the_end_of_the_tree.
